@@ -894,6 +894,9 @@ pub fn run(ctx: Ctx) -> ! {
     cov.insert("caps_hit".into(), json!(capped));
     cov.insert("probe_royalties".into(), json!({"package_xrd": PKG_ROYALTY_XRD, "component_usd": COMP_ROYALTY_USD}));
     let nontrivial = sink.commits.load(Ordering::Relaxed);
+    if nontrivial == 0 {
+        mc_core::machinery_error("C06: the wall cap was hit before any grid point committed (overloaded machine?): nothing to report");
+    }
     ctx.finish(
         Level::Exploration,
         "a case is one grid point (program, tip specifier, costing parameter set, lock pattern incl. every probe of the loan-boundary bisection) executed on the real engine from the same root snapshot; non-trivial = grid points that committed and went through the complete fee identity oracle (receipt arithmetic in BigInt + before/after scan of every XRD vault)",
